@@ -143,9 +143,9 @@ def _emit_tracer_loop(
             kwargs["ret"] = new_ret
     if event == "before_stmt":
         # whichever tracer's exec_saved_thunk is installed must run the value finally left
+        # (the slot is per thread, so this includes tracers that were skipped above)
         for tracer in _TRACER_STACK:
-            if current_thread_id == _main_thread_id or tracer.multiple_threads_allowed:
-                tracer._saved_thunk = kwargs.get("ret")
+            tracer._saved_thunk = kwargs.get("ret")
 
 
 def _emit_event(event, node_id, **kwargs):
